@@ -34,6 +34,9 @@ def handle (args : List String) : Option String :=
   | ["serve", inp] => do
     let _ ← hexDecode inp
     pure "ok"
+  | ["scen", _name, steps] =>
+    -- a stateful scenario (local calls and peer stanzas interleaved): same prediction
+    if steps.isEmpty then none else some "ok"
   | ["helper", name, _typ, reply] => do
     let _ ← hexDecode name
     let _ ← hexDecode reply
